@@ -291,6 +291,12 @@ func (ctx Ctx) typeDecl(doc *ast.CommentGroup, spec *ast.TypeSpec) coq.Decl {
 		return ty
 	default:
 		if spec.Assign == 0 {
+			switch ctx.typeOf(spec.Type).Underlying().(type) {
+			case *types.Struct, *types.Interface:
+				// the new name would be a type, but struct.mk, struct.get, ...
+				// need a descriptor of that name
+				ctx.unsupported(spec, "type defined as another struct or interface type")
+			}
 			return coq.TypeDef{
 				Name: spec.Name.Name,
 				Type: ctx.coqType(spec.Type),
